@@ -49,4 +49,15 @@ let () =
       Printf.sprintf "%s %s %s %s" (zstr r) (if ok then "ok" else "OOB") (show_st s) (show_bytes (load_list am (zs dest) (zs osize)))
     | _ -> "badargs")
 
+let () =
+  (* semout <hist> <blk> <r>: the specified output of Proofs/DecConversePartialTop.v (sequence semantics of an
+     arbitrary input, truncated where the input ends) -> total length, md5 of its first r bytes *)
+  reg "semout" (function [h; b; r] ->
+      let out = specified_output (bytes_of_hex h) (bytes_of_hex b) in
+      let s = string_of_bytes out in
+      let n = String.length s in
+      let k = min n (max 0 (int_of_string r)) in
+      Printf.sprintf "%d %s" n (Digest.to_hex (Digest.string (String.sub s 0 k)))
+    | _ -> "badargs")
+
 let () = Common.main ()
